@@ -81,6 +81,15 @@ CHECKS.update({
              note=TB + "Copy construction/assignment independence is a property of C++ value semantics (identity in the model), exercised under C06.",
              tech="Coq proof (fold-of-addEdge lemma -> reversal, double reversal, constructor) + differential correspondence for all conversions/constructors", ref="DESIGN.md §6 C09"),
 })
+CHECKS.update({
+ 'C10': dict(text="Theorems C10_subgraph_is_induced / C10_subgraph_with_remap (Coq, directed model, every label type): for EVERY duplicate-free iteration order of the unordered_set and "
+                  "every subset of in-range vertices, getSubgraph has the size of g and exactly the edges with both endpoints in S with their labels; getSubgraphWithRemap has |S| vertices, "
+                  "its map is one-to-one from S onto 0..|S|-1 and the result is the image of the induced subgraph; an out-of-range member gives std::out_of_range. PARTIAL: the undirected "
+                  "instantiation is covered by the correspondence check only. Tie: all 2^n subsets (n<=4) of graphs built by seeded histories; the harness reports the real iteration order of "
+                  "its unordered_set, and the spec side validates the RETURNED map as a bijection before comparing the image.",
+             note=TB + "std::unordered_set iteration order enters as a parameter (oracle) read from the implementation run and validated (duplicate-free, same elements).",
+             tech="Coq proof (fold-of-addEdge lemma, all enumeration orders) + differential correspondence on all small subsets", ref="DESIGN.md §6 C10"),
+})
 NA = {'C20': "about the C++ type checker/linker accepting client programs (template instantiation, overload resolution, ODR): no executable Gallina model has a counterpart, so machine-checked proof cannot apply (DESIGN.md §6 C20)"}
 def main():
     props = [json.loads(l)['id'] for l in open(os.path.join(ROOT, 'properties.jsonl'))]
